@@ -39,6 +39,13 @@ def run(chk, recorder="prefix-record", tag="c08"):
                 jobs.append((tf, n))
             finally:
                 os.environ.pop("YV_PREFIX_NOSIG", None)
+            # ... and their signals on random programs as well, ONE PROGRAM PER TRACE: the finding (a rounding residue instead of an
+            # exact 0 steps the 0-seeded detector) can only be at work in a program whose constant phase shows a non-zero value; a
+            # signal discrepancy in a program whose constant-phase values are all exactly 0 is a different violation (see below)
+            for i in range(12 if quick else 48):
+                tf = os.path.join(wd, "ind_signals_%s_%d.ndjson" % (name, i))
+                n = lines_of(run_harness(yv, ["ind-prefix-record", chk.seed * 1000 + 500 + i, 1, 80 if quick else 300, tf, name]))[0]["events"]
+                jobs.append((tf, n))
             tf = os.path.join(wd, "ind_witness_%s.ndjson" % name)
             os.environ["YV_PREFIX_WITNESS"] = json.dumps(kf["witness_doc"])
             try:
@@ -65,6 +72,15 @@ def run(chk, recorder="prefix-record", tag="c08"):
                 first = evs[start + 1]
                 if (evs[k]["ev"] == "pre_pair" and evs[k]["s"] != evs[k]["sk"]) or (evs[k]["ev"] == "pre_const" and evs[k]["s"] != first.get("s")):
                     phase = "signals"
+                    if recorder == "prefix-record" and p["subject"] in special:
+                        const = []
+                        for e in evs[start + 1:]:
+                            if e["ev"] != "pre_const":
+                                break
+                            const.append(e)
+                        big = len(p.get("scale", {}).get("m", [])) >= 6          # scale >= 1e-4: a residue is visible at 1e-24
+                        if const and big and all(y["s"] == 0 for e in const for y in e.get("y", [])):
+                            phase = "signals@zero-values"
             chk.finding("%s:prehistory:%s" % (p["subject"], phase), {"stage": "B:trace", "trace": job[0], "program": p,
                                                                     "rejected_at": info, "step_in_program": k - start})
     chk.cov["traces_validated_against_impl"] += len(jobs)
